@@ -213,6 +213,15 @@ def instances(tier, seed):
                         if not has_time and v.startswith(("mixed", "naive", "sequential")):
                             continue
                         out.append(("markov", cfg, v))
+    # two state pairs of EQUAL size whose prev names and curr names sort in different orders, every variant
+    for sum_op, prod_op, car in SEMIRINGS[:3]:
+        for names in ([("x_prev", "x_curr"), ("y", "next_y")], [("a", "d"), ("y", "next_y")], [("a", "z9"), ("b", "y9")]):
+            for T in (2, 3, 5):
+                pairs = [(p, c, 2) for p, c in names]
+                axes = [("time", "time")] + [("prev", p) for p, _, _ in pairs] + [("curr", c) for _, c, _ in pairs]
+                cfg = dict(sum_op=sum_op, prod_op=prod_op, carrier=car, duration=T, pairs=pairs, batch={}, axes=axes)
+                for v in ["sequential", "naive", "markov_eager", "markov_lazy"] + ["mixed%d" % k for k in range(1, T + 1)]:
+                    out.append(("markov", cfg, v))
     # time-lagged models
     lagsets = [(1,), (2,), (1, 2), (3,), (1, 3), (2, 3), (1, 2, 3)]
     for sum_op, prod_op, car in SEMIRINGS[:3] if tier == "quick" else SEMIRINGS:
